@@ -171,3 +171,27 @@ def edgeCountTo (g : Graph) (x : Int) : Nat := (g.innOf x.toNat).length
 
 end Graph
 end AgdbSearch
+
+namespace AgdbSearch
+namespace Graph
+
+/-- Well-formedness of the abstract graph (decidable; the driver re-checks it before every search):
+slot 0 is the free header slot; a node's chains are duplicate-free and consist of edges that start (out-chain)
+resp. end (in-chain) at it; an edge's endpoints are nodes and the edge is on both their chains; the free list is
+duplicate-free and lists free slots. -/
+def wfB (g : Graph) : Bool :=
+  (g.slot 0 == Slot.free) &&
+  (List.range g.slots.length).all (fun i =>
+    match g.slot i with
+    | .free => true
+    | .node out inn =>
+        decide out.Nodup && decide inn.Nodup &&
+        out.all (fun e => g.isEdgeSlot e && g.srcOf e == i) &&
+        inn.all (fun e => g.isEdgeSlot e && g.dstOf e == i)
+    | .edge s d =>
+        g.isNodeSlot s && g.isNodeSlot d && (g.outOf s).contains i && (g.innOf d).contains i) &&
+  decide g.freeList.Nodup &&
+  g.freeList.all (fun i => g.slot i == Slot.free && i != 0 && decide (i < g.slots.length))
+
+end Graph
+end AgdbSearch
